@@ -234,6 +234,27 @@ theorem biasLog_scale (eps c : ℝ) (hc : 0 < c) (o s : List ℝ)
   ring
 
 
+/-! ### Spearman correlation: depends on the data only through their order -/
+
+theorem ranks_map_strictMono (f : ℝ → ℝ) (hf : StrictMono f) (l : List ℝ) :
+    ranks (l.map f) = ranks l := by
+  unfold ranks
+  rw [List.map_map]
+  apply List.map_congr_left
+  intro x _
+  unfold avgRank
+  simp only [Function.comp_def, List.filter_map, List.length_map, hf.lt_iff_lt]
+
+/-- Spearman correlation is unchanged by strictly increasing re-scalings of either series -/
+theorem spearman_monotone_invariant (f g : ℝ → ℝ) (hf : StrictMono f) (hg : StrictMono g) (o s : List ℝ) :
+    pearson (ranks (o.map f)) (ranks (s.map g)) = pearson (ranks o) (ranks s) := by
+  rw [ranks_map_strictMono f hf, ranks_map_strictMono g hg]
+
+/-- a perfect simulation has Spearman correlation 1 (ranks not all equal) -/
+theorem spearman_perfect (eps : ℝ) (o : List ℝ) (hs : ¬ |std o| < eps)
+    (hr : 0 < ssd (mean (ranks o)) (ranks o)) : corrSpearman eps o o = some 1 := by
+  simp [corrSpearman, absG_eq_abs, hs, pearson_self (ranks o) hr]
+
 /-! ### confusion matrix -/
 
 /-- the labels of the returned table are `0 .. ncat-1` on both axes whenever every category is `< ncat`
@@ -392,6 +413,7 @@ example : nse [(1:ℚ), 2, 4, 7] [1, 2, 4, 5] = 17/21 := by decide +kernel
 example : ssd (mean [(1:ℚ), 2, 4, 7]) [1, 2, 4, 7] ≠ 0 := by decide +kernel
 example : (confusion [0, 2, 2, 0] [0, 0, 0, 0] (inferNcat [0, 2, 2, 0] [0, 0, 0, 0])).2.2
     = [[2, 0, 0], [0, 0, 0], [2, 0, 0]] := by decide
+example : ranks [(3:ℚ), 1, 3, 2] = [7/2, 1, 7/2, 2] := by decide +kernel
 example : (binary (5:ℚ) 2 3 7).orss = some (29/41) := by decide +kernel
 example : (binary (2:ℚ) 5 7 3).orss = some (-29/41) := by decide +kernel
 
